@@ -27,7 +27,7 @@ Section keeps.
 
   Theorem remove_attribute_keeps a n n' : shape_ok p n = true -> remove_attribute a n = Ok n' -> shape_ok p n' = true.
   Proof.
-    intros H E. destruct n as [t v m|t l m|t ps m]; try discriminate E. injection E as <-.
+    intros H E. destruct n as [t [|c0 v] m|t [|x0 l] m|t ps m]; try discriminate E; injection E as <-; try exact H.
     cbn [shape_ok] in *. apply andb_true_iff in H. destruct H as [H1 H2]. rewrite H1. apply remove_first_keeps, H2.
   Qed.
   Theorem remove_defaults_keeps o defs n n' : shape_ok p n = true -> remove_defaults o defs n = Ok n' -> shape_ok p n' = true.
